@@ -500,6 +500,43 @@ def check_c04(sim, res):
 # ================================================================================================
 # C06
 # ================================================================================================
+def acceptable_pairs(sim, alloc, ti, s, candidate_workers):
+    """(worker, FREE facility) pairs that facility task ti could still accept at the end of allocation of step s.
+
+    Only meaningful for a task that is the single task of its component in a flat product (the component
+    is then placed by this task alone). candidate_workers: worker IDs to consider as available.
+    """
+    spec = sim.spec
+    t = sim.tasks[ti]
+    tt = alloc["tasks"][sim.tids[ti]]
+    aw, af = tt[T_AW], tt[T_AF]
+    if tt[T_STATE] not in (S.READY, S.WORKING) or t["auto"] or not t["nf"] or t.get("comp") is None:
+        return []
+    if any(spec["workers"][sim.widx[w]]["solo"] for w in aw) or any(spec["facs"][sim.fidx[f]]["solo"] for f in af):
+        return []
+    placed = alloc["comps"][S.cid(t["comp"])][1]
+    if placed is None:
+        return []
+    out = []
+    for fi, f in enumerate(spec["facs"]):
+        f_id = sim.fids[fi]
+        if S.wpid(f["wp"]) != placed:
+            continue
+        fst, fasg = alloc["facs"][f_id]
+        if fst != S.R_FREE or fasg or not sim.fac_eligible(fi, ti):
+            continue
+        if f["solo"] and af:
+            continue
+        for w in candidate_workers:
+            wi = sim.widx[w]
+            if not sim.worker_eligible(wi, ti, s) or not sim.can_operate(wi, fi):
+                continue
+            if spec["workers"][wi]["solo"] and aw:
+                continue
+            out.append((w, f_id))
+    return out
+
+
 def check_c06(sim, res):
     spec = sim.spec
     flat_product = all(c.get("parent") is None for c in spec["comps"])
@@ -571,28 +608,11 @@ def check_c06(sim, res):
                         sig="ready" if tt[T_STATE] == S.READY else "working",
                     )
             elif flat_product and t.get("comp") is not None and len(comp_tasks[t["comp"]]) == 1:
-                placed = alloc["comps"][S.cid(t["comp"])][1]
-                if placed is None:
-                    continue
-                for fi, f in enumerate(spec["facs"]):
-                    f_id = sim.fids[fi]
-                    if S.wpid(f["wp"]) != placed:
-                        continue
-                    fst, fasg = alloc["facs"][f_id]
-                    if fst != S.R_FREE or fasg or not sim.fac_eligible(fi, ti):
-                        continue
-                    if f["solo"] and af:
-                        continue
-                    for w in free_w:
-                        wi = sim.widx[w]
-                        if not sim.worker_eligible(wi, ti, s) or not sim.can_operate(wi, fi):
-                            continue
-                        if spec["workers"][wi]["solo"] and aw:
-                            continue
-                        res.fail(
-                            "C06.idle_pair",
-                            "worker %s and facility %s are FREE after allocation at step %d although task %s (holding %s/%s) could accept the pair" % (w, f_id, s, t_id, list(aw), list(af)),
-                        )
+                for w, f_id in acceptable_pairs(sim, alloc, ti, s, free_w):
+                    res.fail(
+                        "C06.idle_pair",
+                        "worker %s and facility %s are FREE after allocation at step %d although task %s (holding %s/%s) could accept the pair" % (w, f_id, s, t_id, list(aw), list(af)),
+                    )
     res.cls("ready_task_waited", waited)
     res.cls("worker_joined_working_task", joined)
     res.cls("facilities", bool(spec["facs"]))
